@@ -719,6 +719,11 @@ error:
 	status.error = EVRPC_STATUS_ERR_UNSTARTED;
 	(*ctx->cb)(&status, ctx->request, ctx->reply, ctx->cb_arg);
 	evrpc_request_wrapper_free(ctx);
+	/* the request was never handed to the connection: it is still ours */
+	if (req != NULL)
+		evhttp_request_free(req);
+	/* nothing is in flight for this rpc; give queued requests a chance */
+	evrpc_pool_schedule(pool);
 	return (-1);
 }
 
@@ -733,8 +738,12 @@ evrpc_schedule_request_closure(void *arg, enum EVRPC_HOOK_RESULT hook_res)
 	char *uri = NULL;
 	int res = 0;
 
-	if (hook_res == EVRPC_TERMINATE)
+	if (hook_res == EVRPC_TERMINATE) {
+		/* the request was never handed to the connection: it is
+		 * still ours */
+		evhttp_request_free(req);
 		goto error;
+	}
 
 	uri = evrpc_construct_uri(ctx->name);
 	if (uri == NULL)
@@ -764,6 +773,8 @@ error:
 	status.error = EVRPC_STATUS_ERR_UNSTARTED;
 	(*ctx->cb)(&status, ctx->request, ctx->reply, ctx->cb_arg);
 	evrpc_request_wrapper_free(ctx);
+	/* nothing is in flight for this rpc; give queued requests a chance */
+	evrpc_pool_schedule(pool);
 }
 
 /* we just queue the paused request on the pool under the req object */
